@@ -63,6 +63,8 @@ Definition run_event (I : instance) (ev : val) : wld -> wld * val :=
          else (w, VL [VI (exn_code EIndex)])
   | 6 => fin vnat (create_or_get I (dec_okind (vnth ev 1)) (asOpt (asLof asN) (vnth ev 2)) w)
   | 8 => fin (fun _ : unit => vlist vnat (subs w)) (env_step o_update I (asN (vnth ev 1)) (asZ (vnth ev 2)) w)
+  (* evaluating a dispatching rule on the dispatcher: read-only by contract (the selection itself is C04's) *)
+  | 9 => (w, VL [])
   | _ => (w, snapshot I w)
   end.
 
